@@ -61,7 +61,8 @@ META = {
         "result, converter = option_spec[name]) and reports nothing; every return hands back the validated dict, a dict no option value can reach "
         "(flow-aware taint), or is a documented bypass (validate_options=False, docutils TestDirective; guards re-verified). "
         "R5: no definition of body_offset combines the line count of a string rebuilt with a lossy '\\n'.join with that of another string (origins "
-        "traced through the parser's result object and inlined helpers; a line-terminated join is lossless); dropping the leading blank body line "
+        "traced through the parser's result object, inlined helpers, `a or b` / conditional expressions and a module-level dict the result is "
+        "memoised in - the lookup key must then mention every parameter the counted string depends on; a line-terminated join is lossless); dropping the leading blank body line "
         "and `offset += 1` are control-equivalent, happen once and only under a blank test on body[0]; the first line is merged in front of the body "
         "only under a test that excludes whitespace-only text. "
         "R6: for every regex that cuts the content (parsed with re._parser) the number of newlines a match can contain is fixed, and pattern + "
@@ -69,7 +70,8 @@ META = {
     ),
     "not_decided": (
         "the exact partition (body lines / offset values) for every content layout; the values converters return; what dedent does to a --- block; "
-        "whether a tolerated (reported) loss of the defaults on the tokenizer-error path is desirable; helpers with early returns or *args are not "
+        "whether a tolerated (reported) loss of the defaults on the tokenizer-error path is desirable; line numbers carried by ParseWarnings (C04); "
+        "recursion depth / resource use on pathologically nested or huge option blocks (a runtime quantity); helpers with early returns or *args are not "
         "inlined (the rules then answer ANALYSIS-ERROR if an anchor moved into one)"
     ),
     "trusted_base": [
@@ -1978,11 +1980,16 @@ class StrOrigin:
 
     def _field_origin(self, e: ast.Attribute, fi: FunctionInfo, bind, depth: int) -> set[str]:
         if True:
-            # field of a result object built by a package function
-            v = single_value(fi, e.value.id)
-            if isinstance(v, ast.Call):
+            # field of a result object built by a package function (possibly memoised in a module-level container)
+            v0 = single_value(fi, e.value.id)
+            producers, keys = self._producers(v0, fi, set())
+            if producers is None:
+                return {"unknown"}
+            out: set[str] = set()
+            for v in producers:
                 targets = [t for t in self.g.resolve_call(v, fi) if isinstance(t, FunctionInfo) and not t.is_lambda]
-                out = set()
+                if not targets:
+                    return {"unknown"}
                 for t in targets:
                     try:
                         b = {p: self.string(a, fi, bind, depth + 1) for p, a in bind_args(v, t).items()}
@@ -2002,8 +2009,83 @@ class StrOrigin:
                             out |= self.string(a, t, b, depth + 1) if a is not None else {"unknown"}
                         elif isinstance(n, ast.Return):
                             out.add("unknown")
-                return out or {"unknown"}
-        return {"unknown"}
+            # a memoised object is only valid for the inputs its key mentions
+            for k_ in keys:
+                kn = names_in(k_)
+                for nm in list(kn):
+                    kv = single_value(fi, nm)
+                    if kv is not None:
+                        kn |= names_in(kv)
+                for tag in list(out):
+                    if tag.startswith(f"param:{fi.fq}:") and tag.rsplit(":", 1)[1] not in kn:
+                        out.add("stale-cache:" + tag.rsplit(":", 1)[1])
+            return out or {"unknown"}
+
+    def _producers(self, v: ast.expr | None, fi: FunctionInfo, seen: set) -> tuple[list[ast.Call] | None, list[ast.expr]]:
+        """The package calls that may have built the object ``v`` evaluates to, looking through `a or b`, conditional
+        expressions and reads of a module-level dict the object was stored in (memoisation); plus the lookup keys."""
+        if v is None:
+            return None, []
+        if isinstance(v, ast.BoolOp):
+            calls: list[ast.Call] = []
+            keys: list[ast.expr] = []
+            for x in v.values:
+                c, k = self._producers(x, fi, seen)
+                if c is None:
+                    return None, []
+                calls += c
+                keys += k
+            return calls, keys
+        if isinstance(v, ast.IfExp):
+            a, ka = self._producers(v.body, fi, seen)
+            b, kb = self._producers(v.orelse, fi, seen)
+            return (None, []) if a is None or b is None else (a + b, ka + kb)
+        if isinstance(v, ast.Name):
+            if (fi.fq, v.id) in seen:
+                return [], []
+            seen.add((fi.fq, v.id))
+            calls, keys = [], []
+            defs = simple_defs(fi, v.id)
+            if not defs:
+                return None, []
+            for _, d in defs:
+                c, k = self._producers(d, fi, seen)
+                if c is None:
+                    return None, []
+                calls += c
+                keys += k
+            return calls, keys
+        cont, key = None, None
+        if isinstance(v, ast.Call) and isinstance(v.func, ast.Attribute) and v.func.attr in ("get", "pop") and isinstance(v.func.value, ast.Name) and v.args:
+            cont, key = v.func.value.id, v.args[0]
+            if len(v.args) > 1 and not (isinstance(v.args[1], ast.Constant) and v.args[1].value is None):
+                return None, []
+        elif isinstance(v, ast.Subscript) and isinstance(v.value, ast.Name) and isinstance(v.ctx, ast.Load):
+            cont, key = v.value.id, v.slice
+        if cont is not None and cont in fi.module.const_nodes and not simple_defs(fi, cont):
+            # everything stored into the container in this function (stores elsewhere are not understood)
+            calls = []
+            stored = False
+            for other in fi.module.functions.values():
+                for n in other.local_nodes() if not other.is_lambda else []:
+                    y = None
+                    if isinstance(n, ast.Assign) and any(isinstance(t_, ast.Subscript) and isinstance(t_.value, ast.Name) and t_.value.id == cont for t_ in n.targets):
+                        y = n.value
+                    elif isinstance(n, ast.Call) and isinstance(n.func, ast.Attribute) and n.func.attr == "setdefault" and isinstance(n.func.value, ast.Name) and n.func.value.id == cont and len(n.args) == 2:
+                        y = n.args[1]
+                    if y is None:
+                        continue
+                    if other.fq != fi.fq:
+                        return None, []
+                    stored = True
+                    c, _k = self._producers(y, fi, seen)
+                    if c is None:
+                        return None, []
+                    calls += c
+            return (calls, [key]) if stored else (None, [])
+        if isinstance(v, ast.Call):
+            return [v], []
+        return None, []
 
     def lines(self, e: ast.expr, fi: FunctionInfo, depth: int = 0) -> set[str] | None:
         """Origin of the string a list of lines was split from; None if ``e`` is not a line list."""
@@ -2174,6 +2256,16 @@ def r5_body_offset(corpus: Corpus, rep: Report, tier: str):
             judged = True
             if "unknown" in lo or "unknown" in ro:
                 rep.error("C08.R5", f"{site}: cannot trace the strings whose lines are counted in `{short(b, 60)}`")
+                continue
+            stale = sorted(t.split(":", 1)[1] for t in (lo | ro) if t.startswith("stale-cache:"))
+            if stale:
+                rep.violation(
+                    "C08.R5",
+                    k,
+                    site,
+                    f"`{short(b, 70)}` counts the lines of a result object that may be read back from a module-level cache whose key does not mention `{', '.join(stale)}`: "
+                    "the remaining content of an earlier call with a different value is combined with this call's content, so body and offset belong to different texts",
+                )
                 continue
             joined = [t for t in (lo | ro) if t.startswith("joined@")]
             if joined and lo != ro:
@@ -2455,6 +2547,11 @@ def splice_at(src: str, node: ast.AST, n: int, new: str) -> str:
     return (b[:o] + new.encode("utf8") + b[o + n :]).decode("utf8")
 
 
+def ft_stmt_of_options_call(corpus: Corpus, ft: FunctionInfo):
+    vm = validation_machinery(corpus)
+    return get_cfg(vm.entry).stmt_of(vm.options_call) if vm.entry.fq == ft.fq and vm.corpus is corpus else None
+
+
 def _rename_local(f: FunctionInfo, old: str, new: str) -> str:
     """Source of the module with local ``old`` of function ``f`` renamed (behaviour-preserving)."""
     src = f.module.src
@@ -2666,6 +2763,18 @@ def mutants(corpus: Corpus):
             out.append(("c08-style-test-hoisted-behind-first-branch", "receiver of the ':' test is already a local"))
     else:
         out.append(("c08-style-tests-not-exclusive", "elif of the ':' style not found"))
+    # ---- class: the parsed option block is memoised under a key that omits the content (R5)
+    ra = find_node(ft, lambda n: isinstance(n, ast.Assign) and n is ft_stmt_of_options_call(corpus, ft))
+    if ra is not None and isinstance(ra.targets[0], ast.Name):
+        ind = indent_of(ft, ra)
+        rn = ra.targets[0].id
+        call_src = ast.get_source_segment(src, ra.value)
+        memo = f"key = (directive_class, validate_options, str(additional_options))\n{ind}{rn} = _C08_CACHE.get(key) or {call_src}\n{ind}_C08_CACHE[key] = {rn}"
+        new = splice(src, ra, memo)
+        new = new.replace("\ndef parse_directive_text(", "\n_C08_CACHE: dict = {}\n\n\ndef parse_directive_text(", 1)
+        add("c08-options-memoised-without-content-key", "C08.R5", new, "content_offset = len(content.splitlines()) - len(body_lines)")
+    else:
+        out.append(("c08-options-memoised-without-content-key", "assignment of the options-parser result not found"))
     # ---- R6 -------------------------------------------------------------------
     rx = find_node(fo, lambda n: isinstance(n, ast.Call) and unparse(n.func) == "re.search" and n.args and isinstance(n.args[0], ast.Constant))
     if rx is not None:
